@@ -12,8 +12,8 @@ CLAIMED = {
           "or the given path when it already contains the default name. Containment closure properties are proved as string lemmas; an inventory obligation "
           "pins the 20 mutating call sites of src/lian and the provenance of loader/taint/dump paths. Byte-identity of inputs and bounded copying are NOT "
           "proved: a bounded stand-in runs the real preparation for several placements (incl. symlinks) and is reported under 'bounded'."),
-    note=("Trusted: os/shutil at string level (abspath/realpath/relpath/listdir/walk axioms, no '..' components, no chdir), lianvc + encoding, z3 5.1 + z3 4.8.12. "
-          "Outside: clang preprocessing helper, writes through DataModel.save/SFGDumper/print_and_write_flows (static provenance only)."),
+    note=("Trusted: os/shutil at string level (abspath/realpath/relpath/listdir/walk axioms, no '..' components, no chdir), lianvc + encoding, z3 5.1 (z3 4.8.12 only for the pure string lemmas, after it gave an unjustified unsat on a program VC). "
+          "The clang preprocessing helper body is opaque but every caller proves its argument inside the workspace (rescan_c_like_files under contract). Outside: writes through DataModel.save/SFGDumper/print_and_write_flows (static provenance only)."),
     design='§4 C18'),
  'C19': dict(
     text=("Proof, partly over an assumed contract: deductively verified on the real source are CallSite/CallPath (equality, hash, validity), "
@@ -28,7 +28,7 @@ CLAIMED = {
     design='§4 C19', category='proof'),
  'C20': dict(
     text=("Proof: the VCs generated from the real source of the entry-point selection chain are discharged by z3 for all rule lists, units and "
-          "method tables: check_file_processing_flag_and_extract_lang (exact flag), EntryPointRule.check_availablility, "
+          "method tables: check_file_processing_flag_and_extract_lang (exact flag), EntryPointRule.{check_availablility, __post_init__ (criteria stay as configured)}, "
           "EntryPointGenerator.{filter_rule_by_unit_info, check_rules, collect_entry_points_from_unit_scope, _load_settings}, "
           "EntryPointsLoader.{__init__,save,get_entry_points}, Loader.{save,get}_entry_points, ComputeFrameStack.{__init__,add}, "
           "P3GlobalSemanticAnalysis.{init_frame_stack, run}. Postconditions: selected set == old set U {methods matched by a rule whose unit "
@@ -43,7 +43,7 @@ CLAIMED = {
           "counter, keep every id of a call inside [counter at entry, counter at exit), emit for a block exactly a start marker first and an end marker last carrying the "
           "block id and the given parent, set body attributes to the returned block id, never reuse an id except for the (start,end) pair of one block, never remove rows; "
           "LangAnalysis.adjust_node_id leaves a gap > 1 so that the two ids add_main_func invents (proved: max+1, max+2, above every id of the unit) stay below the next "
-          "file's first id (lemma over the three contracts). NOT decided: arbitrary text through tree-sitter and the frontends, the never-raises clause beyond these stages, "
+          "file's first id (lemma over the three contracts). Structural: file read and tree-sitter call of GIRParser.parse sit in catch-all handlers. NOT decided: arbitrary text through tree-sitter and the frontends, the never-raises clause beyond that, "
           "proper nesting as such (it follows from marker placement, not stated as a grammar), GIRBlockViewer."),
     note=("Trusted: lianvc + encoding, z3. Assumed (hereditary, unchecked): frontend output shape (non-empty statement dicts, first key = operation, payload keys not "
           "reserved). LangAnalysis.run is not under contract."),
@@ -53,11 +53,11 @@ CLAIMED = {
           "ControlFlowGraph.add_edge calls, for all frontiers, rows and iterations: link_parent_stmts_to_current_stmt issues exactly one add_edge per frontier element, in order, "
           "with the element's own kind (EMPTY for a plain statement); analyze_return_stmt links the frontier and adds (stmt, -1, RETURN); analyze_break_stmt/analyze_continue_stmt "
           "link the frontier, collect the statement for the enclosing loop and cut the frontier; deal_with_last_stmts_of_loop_body gives every element of the body frontier an edge "
-          "to the header (LOOP_BACK for plain statements), links every collected continue to the header with CONTINUE, returns the collected breaks followed by the normal exit "
-          "CFGNode(header, LOOP_FALSE) as LAST element (absent for a literal-true condition) and adds nothing else; analyze_while_stmt analyses the body from "
+          "to the header (LOOP_BACK for plain statements), links every collected continue to the header with CONTINUE, returns exactly the collected breaks and the normal exit "
+          "CFGNode(header, LOOP_FALSE) (absent for a literal-true condition; order-agnostic) and adds nothing else; analyze_while_stmt analyses the body from "
           "[CFGNode(header, LOOP_TRUE)] with a fresh collector, an else body with the enclosing collector, and lets the else body replace exactly the normal exit; analyze_if_stmt "
           "analyses each arm from the condition node with its branch kind; analyze_dowhile_stmt / analyze_for_stmt analyse their blocks from the right frontiers with the right collectors and close the loop on its own header; BasicGraph._add_one_edge adds the edge iff src != dst, src >= 0 and none exists, and never removes one. "
-          "analyze_block (the recursion) is ASSUMED; that every execution is a CFG path is covered only by a bounded stand-in (reported under 'bounded')."),
+          "analyze_block (the recursion) is ASSUMED; that every execution is a CFG path is covered only by a bounded stand-in (program family, several methods analysed in one process, try/except/else/finally methods; reported under 'bounded')."),
     note=("Trusted: lianvc + encoding, z3; GIRBlockViewer accessors uninterpreted; networkx has_edge/add_edge as an edge relation. One genuine defect repaired by a fix: commit "
           "(loop else bodies). Not under contract: switch/try/yield/decl handlers, analyze(), goto."),
     design='§4 C04'),
@@ -68,7 +68,7 @@ CLAIMED = {
           "scope yield the unresolved default record. UnitScopeHierarchyAnalysis.correct_scopes re-homes a declaration into scope S only if it was read from the block S designates "
           "for that kind (class fields/methods/nested classes, method parameters, for/with initialisers) and a method only if it is a DIRECT child of the class's methods block. "
           "Lemma: on an ancestor chain with parent id < child id the maximum id is the innermost scope. Recorded finding F5: the chosen scope need not enclose the statement "
-          "(implicit-root union). Not decided: scope discovery per language, summarize_symbol_decls, imports, the renaming sentence."),
+          "(implicit-root union). ImportHierarchy.analyze_import_stmt (prefix): a relative import starts its search (leading dots - 1) package levels above the importing file. add_status_with_symbol_id_sync: only a `global` name is looked up in the root scope alone. Bounded stand-in: declaration hoisting + scope tables + resolver on one program. Not decided: scope discovery per language, summarize_symbol_decls, the rest of import resolution, the renaming sentence."),
     note=("Trusted: lianvc + encoding, z3; loader / GIR viewer / scope-space lookups as uninterpreted functions; organize_return_value and resolve_implicit_root_scopes opaque."),
     design='§4 C05'),
  'C06': dict(
@@ -77,7 +77,7 @@ CLAIMED = {
           "OUT == {d} U (IN minus all definitions of d's symbol) and keeps defined_symbols[s] == {d in all_symbol_defs | d.symbol_id == s}; analyze_reachable_symbols (up to the "
           "change notification) sets IN to the union of OUT over exactly the selected predecessors (all; at a loop header the non-back-edge ones in round one, the back-edge ones "
           "afterwards) and OUT to the fold of that transfer over the defined symbols (kill, pass-through, gen clauses); check_reachable_symbol_defs returns the available "
-          "definitions of the used symbol or one external node; add_status_with_symbol_id_sync never overwrites the symbol id recorded for a compiler temporary. "
+          "definitions of the used symbol or one external node; add_status_with_symbol_id_sync never overwrites the symbol id recorded for a compiler temporary; update_symbols_if_changed re-binds the uses whenever the IN set changed and re-queues the successors whenever OUT or the definition changed; rerun_analyze_reachable_symbols (prefix) folds into the current OUT set. "
           "The schedule is NOT proved: analyze_stmts' final pop() is incoherent with its peek() (known finding F8, replayed on the real code every run) and the bounded rounds do "
           "not guarantee the fixpoint, so the loop-free 'exactly the classical solution' sentence and the soundness sentence for whole methods are not decided."),
     note=("Trusted: lianvc + encoding, z3; CFG predecessor/edge-kind queries as uninterpreted functions (get_graph_edge_weight: bounded stand-in); symbol space lookups uninterpreted; "
@@ -102,7 +102,7 @@ CLAIMED = {
           "should_apply_call_stmt_sink_rules / apply_record_write_sink_rules / apply_field_write_sink_rules answer True only through a configured rule of that kind whose stated "
           "unit-name/unit-path/line restrictions and name/key clause hold (False without rules); TaintAnalysis.find_flows reports a (source, sink) pair only when the sink tag shares "
           "a bit with the tag propagated from the source, evaluates every pair in a fresh TaintEnv, restores the analysis-wide environment, reports nothing without sources or sinks. "
-          "Recorded finding F6: the language restriction of a rule is never read. Not decided: that a tag intersection implies a program dependence; source appliers; monotonicity."),
+          "Structural: the rule lists of RuleManager are append-only (one element per configured rule, attributes taken from the entry). Recorded findings F6 (the language restriction of a rule is never read) and F12 (parameter shortcut). Not decided: that a tag intersection implies a program dependence; source appliers; monotonicity."),
     note=("Trusted: lianvc + encoding, z3; networkx graph queries and str.split as uninterpreted functions; tags as 16-bit vectors; propagation and path reconstruction opaque."),
     design='§4 C11'),
  'C13': dict(
@@ -112,7 +112,7 @@ CLAIMED = {
           "complete_in_states_and_check_continue_flag (prefix) answers False at the bound; GlobalStmtStates.compute_target_method_states (prefix: the callee loop) "
           "selects a callee only while its call-site counter <= MAX_ANALYSIS_ROUND_FOR_CALL_SITE, the path is not stored and closes at most one cycle, and selecting "
           "adds exactly one to the shared table; PathFinder._enqueue never queues a marked node twice and _propagate_from_symbol/_propagate_from_state/_propagate_from_stmt re-enqueue a node only on strict tag growth, for a statement re-read, or if it was never dequeued in this propagation (tags only grow; propagate_taint keeps a fresh per-propagation set that receives every dequeued node); SimpleWorkList.{add,_add_with_priority,pop,peek,__len__} never queue an item twice; CallPath.count_cycles bounds. "
-          "Static obligations pin every writer of the counter tables in src/lian and that all frames of an entry point share one call-site table. "
+          "Static obligations pin every writer of the counter tables in src/lian, that all frames of an entry point share one call-site table, that the phase-II frame driver records a method before it pops its frame, and that the recursion guard of the field-merge descent is keyed by the merged state sets only. "
           "That these bounds imply termination in polynomial time (liveness/complexity), the drain bound of the taint worklist as a lemma and the unused size caps are outside."),
     note=("Trusted: lianvc + encoding, z3; heapq.heappush as a permutation; the four analysis steps / prepare_parameters / map_arguments opaque with an assumed frame "
           "(do not write the counter tables; backed only by the syntactic writer inventory)."),
@@ -122,8 +122,8 @@ CLAIMED = {
           "saved for the id: the representation invariant (index, active bundle, bundle files, bundle cache, item cache all describe the latest content per "
           "id) is established/preserved by save, export, get; new bundle files never overwrite older ones (path injectivity lemma); util.LRUCache is a "
           "faithful map; OneToManyMapLoader.save/convert_* keep forward and reverse maps for non-empty content. VCs from the real loader.py/util.py, "
-          "discharged by z3. One recorded finding (saving an empty collection is ignored). Not decided: the 'failed write is reported' clause, "
-          "restore by a fresh loader, the 17 subclass hook pairs (assumed; bounded stand-in through real files), LRU recency-list safety."),
+          "discharged by z3. restore_indexing: every restored index entry points below the restored bundle count. Structural: the 56 sub-loaders of the Loader facade have pairwise distinct file prefixes. Recorded findings F9, F13. Not decided: the 'failed write is reported' clause, "
+          "export_indexing, the 17 subclass hook pairs (assumed; bounded stand-in through real files), LRU recency-list safety."),
     note=("Trusted: DataModel/pandas/feather as uninterpreted table tokens with identity round trip; subclass hooks opaque; lianvc + encoding; z3. "
           "LRUCache get/put/remove may raise AttributeError/KeyError as far as the proof goes (list well-formedness only bounded)."),
     design='§4 C15'),
@@ -132,7 +132,7 @@ CLAIMED = {
           "cells; every entry of the per-column equality index is the ascending position index of the CURRENT frame) is established by __init__, "
           "re-established by set_refresh_flag for an arbitrary new frame and therefore by modify_row/modify_column/modify_element/rename_column/"
           "append_data_model/remove_rows/load, preserved by refresh_rows/reset_index/queries; query_index_column_value_indices, "
-          "search_block_start_end_indics, read_block, slice, clone, access, __len__ return exactly the scan of the current frame with valid positions. "
+          "search_block_start_end_indics, read_block, slice, clone, access, __len__, query_index_column_value, query_index_column_value_first return exactly the scan of the current frame with valid positions. "
           "All VCs are generated from the real data_model.py/util.py and discharged by z3 for all frames, all histories (invariant is inductive)."),
     note=("Trusted: pandas as an uninterpreted library (frame id + observers; snapshots under copy-on-write), lianvc + encoding, z3. Outside: the cache-sharing "
           "constructor DataModel(other_model), reset_index(move_index_to_column=True), fillna/set_columns, a few convenience queries (listed in the evidence)."),
